@@ -63,7 +63,11 @@ impl ValidatorSync for KeepUniqueValidator {
                             }
                         }
                         Some(Ok(re)) => {
-                            if let Some(c) = re.captures(line) {
+                            if line.trim().is_empty() {
+                                // Blank lines never have a key, even when the pattern matches
+                                // the empty string.
+                                None
+                            } else if let Some(c) = re.captures(line) {
                                 // If named group "value" exists use it, otherwise use whole match
                                 if let Some(m) = c.name("value") {
                                     let range = m.range();
